@@ -1,4 +1,4 @@
--- PINNED by bin/pin_tables: copy of Gen/Dispatch.lean as generated from /repo at eabc17a — regenerate, do not edit
+-- PINNED by bin/pin_tables: copy of Gen/Dispatch.lean as generated from /repo at edfbc42 — regenerate, do not edit
 namespace Ggql.Pinned
 def dispatchOrder : List String := ["resolver", "any", "reflect"]
 def opFallbackAnyName : Bool := false
@@ -11,6 +11,7 @@ def descRaw : Bool := false
 def eventVarsEmpty : Bool := false
 def schemaDuringScan : Bool := false
 def objectUnchecked : Bool := false
+def argsInPlace : Bool := false
 def inputDefaultsRaw : Bool := true
 def listNotCoerced : Bool := false
 def symbolUnchecked : Bool := false
